@@ -198,10 +198,23 @@ func (w *world) pickNext() *goroutine {
 			s.runq = append(s.runq[:idx:idx], s.runq[idx+1:]...)
 			return g
 		}
-		// nothing runnable: quiescing main first, then timers
+		// nothing runnable: a quiescing goroutine other than the harness's
+		// main one (a "slow step") resumes first, one at a time, so that the
+		// main goroutine's Quiesce only returns once those have run on as far
+		// as they can; then the quiescing main goroutine; then timers
+		woke := false
 		for _, g := range s.gs {
-			if g.state == gBlocked && g.quiescing {
+			if g.state == gBlocked && g.quiescing && !g.isMain {
 				w.makeRunnable(g)
+				woke = true
+				break
+			}
+		}
+		if !woke {
+			for _, g := range s.gs {
+				if g.state == gBlocked && g.quiescing {
+					w.makeRunnable(g)
+				}
 			}
 		}
 		if len(s.runq) > 0 {
@@ -285,7 +298,17 @@ func (w *world) maybePreempt() {
 func (w *world) quiesce() {
 	g := w.sched.cur
 	if len(w.sched.runq) == 0 {
-		return
+		// nothing runnable: return at once, unless another goroutine is parked
+		// in its own Quiesce (a slow step) and is waiting for exactly this
+		other := false
+		for _, x := range w.sched.gs {
+			if x != g && x.state == gBlocked && x.quiescing {
+				other = true
+			}
+		}
+		if !other {
+			return
+		}
 	}
 	g.state = gBlocked
 	g.quiescing = true
